@@ -1,2 +1,437 @@
 #![allow(warnings, clippy::all, clippy::pedantic, clippy::nursery)]
+//@ module: index::binarysorted
 use super::*;
+use crate::error::verif_harness as vh;
+use crate::index::GlobalIndex;
+use crate::blob::{DataId, tree::TreeId};
+
+/// ids from a 4-element domain (b || 0^31, b < 4) so duplicates and cross-type collisions occur
+fn any_bid() -> BlobId {
+    let b: u8 = kani::any();
+    kani::assume(b < 4);
+    BlobId::from(vh::mk_id(b))
+}
+fn pid(b: u8) -> PackId { PackId::from(vh::mk_id(b)) }
+fn any_loc() -> BlobLocation {
+    BlobLocation { offset: kani::any(), length: kani::any(), uncompressed_length: std::num::NonZeroU32::new(kani::any()) }
+}
+fn any_type() -> BlobType { if kani::any() { BlobType::Tree } else { BlobType::Data } }
+
+#[derive(Clone, Copy)]
+struct Row { id: BlobId, pack_idx: u32, loc: BlobLocation }
+
+/// N entries, *assumed* sorted by id (the fact `into_index`'s sort establishes), pack_idx < npacks
+fn sorted_rows<const N: usize>(npacks: u32) -> [Row; N] {
+    let rows: [Row; N] = core::array::from_fn(|_| {
+        let pi: u32 = kani::any();
+        kani::assume(pi < npacks);
+        Row { id: any_bid(), pack_idx: pi, loc: any_loc() }
+    });
+    let mut i = 0;
+    while i + 1 < N {
+        kani::assume(rows[i].id <= rows[i + 1].id);
+        i += 1;
+    }
+    rows
+}
+fn full<const N: usize>(rows: &[Row; N]) -> EntriesVariants {
+    let mut v = Vec::with_capacity(N);
+    let mut i = 0;
+    while i < N { v.push(SortedEntry { id: rows[i].id, pack_idx: rows[i].pack_idx, location: rows[i].loc }); i += 1; }
+    EntriesVariants::FullEntries(v)
+}
+fn ids<const N: usize>(rows: &[Row; N]) -> EntriesVariants {
+    let mut v = Vec::with_capacity(N);
+    let mut i = 0;
+    while i < N { v.push(rows[i].id); i += 1; }
+    EntriesVariants::Ids(v)
+}
+
+/// mode: 0 = Full, 1 = DataIds, 2 = OnlyTrees (what IndexCollector::new sets up per mode)
+fn lookup_check<const ND: usize, const NT: usize>(mode: u8) {
+    let packs_d = [pid(10), pid(11)];
+    let packs_t = [pid(20), pid(21)];
+    let d = sorted_rows::<ND>(2);
+    let t = sorted_rows::<NT>(2);
+    let data_entries = match mode { 0 => full(&d), 1 => ids(&d), _ => EntriesVariants::None };
+    let idx = Index(enum_map::enum_map! {
+        BlobType::Tree => TypeIndex { packs: vec![packs_t[0], packs_t[1]], entries: full(&t), total_size: 0 },
+        BlobType::Data => TypeIndex { packs: vec![packs_d[0], packs_d[1]], entries: match mode { 0 => full(&d), 1 => ids(&d), _ => EntriesVariants::None }, total_size: 0 },
+    });
+    std::mem::forget(data_entries);
+    let gi = GlobalIndex::new_from_index(idx);
+    let q = any_bid();
+    // the query type is a symbolic choice, but concrete on each path (a symbolic EnumMap index makes
+    // every later pointer an if-then-else over objects: SAT memory > 8 GB)
+    if kani::any() { lookup_query::<ND, NT>(&gi, mode, &d, &t, &packs_d, &packs_t, q, BlobType::Tree); }
+    else { lookup_query::<ND, NT>(&gi, mode, &d, &t, &packs_d, &packs_t, q, BlobType::Data); }
+    std::mem::forget(gi);
+}
+
+fn lookup_query<const ND: usize, const NT: usize>(gi: &GlobalIndex, mode: u8, d: &[Row; ND], t: &[Row; NT], packs_d: &[PackId; 2], packs_t: &[PackId; 2], q: BlobId, tpe: BlobType) {
+    // reference: linear scan of the rows of that type
+    let mut listed = false;
+    let mut i = 0;
+    if tpe == BlobType::Data { while i < ND { if d[i].id == q { listed = true; } i += 1; } }
+    else { while i < NT { if t[i].id == q { listed = true; } i += 1; } }
+    let retains_presence = tpe == BlobType::Tree || mode != 2;
+    let retains_location = tpe == BlobType::Tree || mode == 0;
+    let has = gi.has(tpe, &q);
+    assert!(has == (listed && retains_presence));
+    let got = gi.get_id(tpe, &q);
+    match got {
+        None => assert!(!(listed && retains_location)),
+        Some(e) => {
+            assert!(listed && retains_location);
+            let mut ok = false;
+            let mut i = 0;
+            if tpe == BlobType::Data {
+                while i < ND { if d[i].id == q && e.pack == packs_d[d[i].pack_idx as usize] && e.location == d[i].loc { ok = true; } i += 1; }
+            } else {
+                while i < NT { if t[i].id == q && e.pack == packs_t[t[i].pack_idx as usize] && e.location == t[i].loc { ok = true; } i += 1; }
+            }
+            assert!(ok);
+            assert!(e == IndexEntry::new(tpe, e.pack, e.location));
+            kani::cover!(true, "get_id returned a listing");
+        }
+    }
+    // typed convenience lookups agree
+    let raw = crate::id::Id::from(*q);
+    if tpe == BlobType::Tree {
+        assert!(gi.has_tree(&TreeId::from(raw)) == has);
+        assert!(gi.get_tree(&TreeId::from(raw)) == got);
+    } else {
+        assert!(gi.has_data(&DataId::from(raw)) == has);
+        assert!(gi.get_data(&DataId::from(raw)) == got);
+    }
+    kani::cover!(mode != 2 || (listed && !retains_presence), "trees-only mode: a listed data blob is invisible");
+    kani::cover!(has, "present");
+    kani::cover!(!listed, "absent");
+}
+
+macro_rules! lookup_instance {
+    ($name:ident, $nd:expr, $nt:expr, $mode:expr) => {
+        #[kani::proof]
+        #[kani::unwind(6)]
+        pub(crate) fn $name() { lookup_check::<$nd, $nt>($mode); }
+    };
+}
+//@ instance: c17_lookup_full_d2_t1 c17_lookup_full_d3_t2 c17_lookup_ids_d3_t1 c17_lookup_trees_d2_t2 c17_lookup_full_d4_t1
+//@ harness: c17_lookup_full_d2_t1 c17_lookup_ids_d3_t1 c17_lookup_trees_d2_t2
+//@ prop: C17
+//@ tier: quick
+//@ timeout: 900
+//@ unwindset: ^memcmp#0=34
+//@ kernel: Index::{get_id,has} (binary search), GlobalIndex::{new_from_index,get_id,has}, ReadIndex::{get_tree,get_data,has_tree,has_data}, IndexEntry::new
+//@ bound: per instance dN_tM: N data and M tree entries (concrete counts), ids symbolic in {0,1,2,3}||0^31 (duplicates and same id under both types occur), pack index, offset, length, uncompressed length symbolic; index mode Full / DataIds / OnlyTrees per instance; symbolic (type,id) query; loops unwound 6 (binary search needs <= 3 iterations for <= 4 entries), memcmp 34
+//@ oracle: has <=> a row of that type lists the id and the mode retains presence; get_id is Some <=> listed and the mode retains locations, and (pack,offset,length,uncompressed) equal one listing of that (type,id); tree/data never mix; typed helpers agree
+//@ assume: each entry vector is sorted by id - the post-condition of the sort in IndexCollector::into_index (rayon par_sort_unstable*, trusted: Kani cannot compile rayon, DESIGN 1.3a)
+//@ outside: IndexCollector::into_index and Index::into_iter themselves (two rayon sort calls)
+lookup_instance!(c17_lookup_full_d2_t1, 2, 1, 0);
+lookup_instance!(c17_lookup_ids_d3_t1, 3, 1, 1);
+lookup_instance!(c17_lookup_trees_d2_t2, 2, 2, 2);
+//@ harness: c17_lookup_full_d3_t2 c17_lookup_full_d4_t1
+//@ prop: C17
+//@ tier: thorough
+//@ timeout: 1800
+//@ unwindset: ^memcmp#0=34
+//@ kernel: as c17_lookup_full_d2_t1
+//@ bound: as c17_lookup_full_d2_t1 with 3+2 and 4+1 entries
+//@ oracle: as c17_lookup_full_d2_t1
+//@ assume: entry vectors sorted by id (post-condition of the trusted rayon sort)
+lookup_instance!(c17_lookup_full_d3_t2, 3, 2, 0);
+lookup_instance!(c17_lookup_full_d4_t1, 4, 1, 0);
+
+// ---------------------------------------------------------------------------
+// collector: IndexCollector::{new, extend}
+// ---------------------------------------------------------------------------
+fn mk_pack(n: u8, tpe: BlobType, nblobs: usize, with_size: bool) -> IndexPack {
+    let mut blobs = Vec::with_capacity(2);
+    let mut i = 0;
+    while i < nblobs { blobs.push(IndexBlob { id: any_bid(), tpe, location: any_loc() }); i += 1; }
+    IndexPack { id: pid(n), blobs, time: None, size: if with_size { Some(kani::any()) } else { None } }
+}
+
+fn collector_check<const NP: usize>(shape: [usize; NP], ptypes: [BlobType; NP], mode: IndexType) {
+    // packs are homogeneous (all blobs of a pack have the pack's type); types concrete per instance
+    let mut c = IndexCollector::new(mode);
+    let mut types = [BlobType::Data; NP];
+    // plain copies of what is fed in (<= 2 blobs per pack)
+    let dummy = Row { id: BlobId::from(vh::mk_id(0)), pack_idx: 0, loc: BlobLocation { offset: 0, length: 0, uncompressed_length: None } };
+    let mut rows = [[dummy; 2]; NP];
+    let mut sizes = [0u32; NP];
+    let mut i = 0;
+    while i < NP {
+        let t = ptypes[i];
+        let p = mk_pack(i as u8 + 1, t, shape[i], true);
+        let mut j = 0;
+        while j < shape[i] { rows[i][j] = Row { id: p.blobs[j].id, pack_idx: 0, loc: p.blobs[j].location }; j += 1; }
+        sizes[i] = p.size.unwrap();
+        // empty packs count as data (IndexPack::blob_type documents this)
+        types[i] = if shape[i] == 0 { BlobType::Data } else { t };
+        // index files are fed one pack list after the other; Option<IndexPack> is the cheapest IntoIterator
+        c.extend(Some(p));
+        i += 1;
+    }
+    let m = match mode { IndexType::Full => 0u8, IndexType::DataIds => 1, IndexType::OnlyTrees => 2 };
+    collector_type_check::<NP>(&c, BlobType::Tree, &shape, &types, &rows, &sizes, m);
+    collector_type_check::<NP>(&c, BlobType::Data, &shape, &types, &rows, &sizes, m);
+    kani::cover!(true, "collector checked");
+    std::mem::forget(c);
+}
+
+fn collector_type_check<const NP: usize>(c: &IndexCollector, tpe: BlobType, shape: &[usize; NP], types: &[BlobType; NP], rows: &[[Row; 2]; NP], sizes: &[u32; NP], m: u8) {
+    let tc = &c.0[tpe];
+    let mut want_packs = 0usize;
+    let mut want_entries = 0usize;
+    let mut total = 0u64;
+    let mut i = 0;
+    while i < NP {
+        if types[i] == tpe {
+            // pack list in input order, with sizes
+            assert!(tc.packs[want_packs].0 == pid(i as u8 + 1) && tc.packs[want_packs].1 == sizes[i]);
+            // entries of this pack follow in order with pack_idx = position in the pack list
+            let mut j = 0;
+            while j < shape[i] {
+                let r = &rows[i][j];
+                match &tc.entries {
+                    EntriesVariants::FullEntries(es) => {
+                        let e = &es[want_entries + j];
+                        assert!(e.id == r.id && e.pack_idx == want_packs as u32 && e.location == r.loc);
+                    }
+                    EntriesVariants::Ids(idents) => assert!(idents[want_entries + j] == r.id),
+                    EntriesVariants::None => {}
+                }
+                j += 1;
+            }
+            want_entries += shape[i];
+            want_packs += 1;
+            total += u64::from(sizes[i]);
+        }
+        i += 1;
+    }
+    assert!(tc.packs.len() == want_packs);
+    assert!(tc.total_size == total);
+    match &tc.entries {
+        EntriesVariants::FullEntries(es) => { assert!(tpe == BlobType::Tree || m == 0); assert!(es.len() == want_entries); }
+        EntriesVariants::Ids(idents) => { assert!(tpe == BlobType::Data && m == 1); assert!(idents.len() == want_entries); }
+        EntriesVariants::None => assert!(tpe == BlobType::Data && m == 2),
+    }
+}
+
+macro_rules! collector_instance {
+    ($name:ident, $shape:expr, $types:expr, $mode:expr) => {
+        #[kani::proof]
+        #[kani::unwind(6)]
+        pub(crate) fn $name() { collector_check($shape, $types, $mode); }
+    };
+}
+//@ instance: c17_collect_full_2_1 c17_collect_ids_2_1 c17_collect_trees_0_2 c17_collect_full_1_1_2 c17_collect_ids_2_2 c17_collect_trees_2_1 c17_collect_full_2
+//@ harness: c17_collect_full_2_1 c17_collect_ids_2_1 c17_collect_trees_0_2
+//@ prop: C17
+//@ tier: quick
+//@ timeout: 900
+//@ mem: 12
+//@ unwindset: ^memcmp#0=34
+//@ kernel: IndexCollector::{new, extend}, IndexPack::{blob_type, pack_size}
+//@ bound: per instance: concrete number of packs and blobs per pack (2_1 = two packs with 2 and 1 blobs, ...), pack types concrete per instance (both orders occur), blob ids symbolic in a 4-element domain, locations and pack sizes symbolic; all three IndexType modes across instances
+//@ oracle: after extend the collector holds, per type, the packs of that type in input order with their sizes, total_size == sum of pack sizes (empty packs count as data), and exactly the listed (id, pack index, location) entries in order - ids only in DataIds mode, nothing for data in OnlyTrees mode
+//@ assume: packs are homogeneous (every blob of a pack has the pack's type; restic/rustic never write mixed packs since rustic 0.1 and check flags mixed packs)
+//@ outside: marked packs (packs_to_delete) are excluded by the caller new_from_collector, which sits behind a rayon stream (not compilable by Kani)
+collector_instance!(c17_collect_full_2_1, [2, 1], [BlobType::Data, BlobType::Tree], IndexType::Full);
+collector_instance!(c17_collect_ids_2_1, [2, 1], [BlobType::Data, BlobType::Data], IndexType::DataIds);
+collector_instance!(c17_collect_trees_0_2, [0, 2], [BlobType::Tree, BlobType::Data], IndexType::OnlyTrees);
+//@ harness: c17_collect_full_1_1_2 c17_collect_ids_2_2 c17_collect_trees_2_1 c17_collect_full_2
+//@ prop: C17
+//@ tier: thorough
+//@ timeout: 1800
+//@ unwindset: ^memcmp#0=34
+//@ kernel: as c17_collect_full_2_1
+//@ bound: as c17_collect_full_2_1, shapes (1,1,2), (2,2), (2,1), (2)
+//@ oracle: as c17_collect_full_2_1
+//@ assume: packs are homogeneous
+collector_instance!(c17_collect_full_1_1_2, [1, 1, 2], [BlobType::Tree, BlobType::Data, BlobType::Tree], IndexType::Full);
+collector_instance!(c17_collect_ids_2_2, [2, 2], [BlobType::Tree, BlobType::Data], IndexType::DataIds);
+collector_instance!(c17_collect_trees_2_1, [2, 1], [BlobType::Tree, BlobType::Tree], IndexType::OnlyTrees);
+collector_instance!(c17_collect_full_2, [2], [BlobType::Data], IndexType::Full);
+
+// ---------------------------------------------------------------------------
+// PackIndexes::next on entries assumed sorted by pack index
+// ---------------------------------------------------------------------------
+//@ harness: c17_pack_iteration
+//@ prop: C17
+//@ tier: quick
+//@ timeout: 900
+//@ unwindset: ^memcmp#0=34
+//@ kernel: PackIndexes::next
+//@ bound: tree index: 2 packs, 2 entries; data index: 2 packs, 3 entries; pack_idx symbolic, assumed sorted by pack_idx (post-condition of the trusted sort in Index::into_iter); ids/locations symbolic
+//@ oracle: iteration yields every pack exactly once (trees first, then data, in pack order) with exactly the entries whose pack_idx names it, as IndexBlobs of the right type; then None
+//@ assume: entries sorted by pack_idx (trusted rayon sort in into_iter)
+#[kani::proof]
+#[kani::unwind(8)]
+pub(crate) fn c17_pack_iteration() {
+    fn rows_by_pack<const N: usize>(np: u32) -> [Row; N] {
+        let rows: [Row; N] = core::array::from_fn(|_| { let pi: u32 = kani::any(); kani::assume(pi < np); Row { id: any_bid(), pack_idx: pi, loc: any_loc() } });
+        let mut i = 0;
+        while i + 1 < N { kani::assume(rows[i].pack_idx <= rows[i + 1].pack_idx); i += 1; }
+        rows
+    }
+    let t = rows_by_pack::<2>(2);
+    let d = rows_by_pack::<3>(2);
+    let packs_t = [pid(20), pid(21)];
+    let packs_d = [pid(10), pid(11)];
+    let idx = Index(enum_map::enum_map! {
+        BlobType::Tree => TypeIndex { packs: vec![packs_t[0], packs_t[1]], entries: full(&t), total_size: 0 },
+        BlobType::Data => TypeIndex { packs: vec![packs_d[0], packs_d[1]], entries: full(&d), total_size: 0 },
+    });
+    let mut it = PackIndexes { c: idx, tpe: BlobType::Tree, idx: BlobTypeMap::default() };
+    let mut k = 0usize;
+    while k < 4 {
+        let p = it.next().unwrap();
+        let (tpe, pi, want_id) = if k < 2 { (BlobType::Tree, k as u32, packs_t[k]) } else { (BlobType::Data, (k - 2) as u32, packs_d[k - 2]) };
+        assert!(p.id == want_id);
+        let mut n = 0usize;
+        let mut i = 0;
+        if tpe == BlobType::Tree {
+            while i < 2 { if t[i].pack_idx == pi { assert!(p.blobs[n] == IndexBlob { id: t[i].id, tpe, location: t[i].loc }); n += 1; } i += 1; }
+        } else {
+            while i < 3 { if d[i].pack_idx == pi { assert!(p.blobs[n] == IndexBlob { id: d[i].id, tpe, location: d[i].loc }); n += 1; } i += 1; }
+        }
+        assert!(p.blobs.len() == n);
+        kani::cover!(n == 2, "a pack with two blobs came back");
+        kani::cover!(n == 0, "an empty pack came back");
+        std::mem::forget(p);
+        k += 1;
+    }
+    assert!(it.next().is_none());
+    std::mem::forget(it);
+}
+
+// ---------------------------------------------------------------------------
+// end to end: collector -> into_index (real code; rayon's parallel sort replaced by a
+// sequential insertion sort with the same contract) -> lookup / into_iter
+// ---------------------------------------------------------------------------
+/// Sequential stand-in for rayon::slice::ParallelSliceMut with the same trait shape (Kani accepts
+/// trait-method stubs only from a trait of identical layout).  Contract kept: "sorts the slice by
+/// the given key / comparator".  What stays checked is that the real code *calls* the sort, on the
+/// right vector, with the right key.
+pub(crate) trait SeqSliceMut<T: Send> {
+    fn as_parallel_slice_mut(&mut self) -> &mut [T];
+    fn par_sort_unstable(&mut self) where T: Ord {
+        let s = self.as_parallel_slice_mut();
+        let n = s.len();
+        let mut i = 1;
+        while i < n { let mut j = i; while j > 0 && s[j - 1] > s[j] { s.swap(j - 1, j); j -= 1; } i += 1; }
+    }
+    fn par_sort_unstable_by<F>(&mut self, compare: F) where F: Fn(&T, &T) -> std::cmp::Ordering + Sync {
+        let s = self.as_parallel_slice_mut();
+        let n = s.len();
+        let mut i = 1;
+        while i < n { let mut j = i; while j > 0 && compare(&s[j - 1], &s[j]) == std::cmp::Ordering::Greater { s.swap(j - 1, j); j -= 1; } i += 1; }
+    }
+    fn par_sort_unstable_by_key<K, F>(&mut self, f: F) where K: Ord, F: Fn(&T) -> K + Sync {
+        let s = self.as_parallel_slice_mut();
+        let n = s.len();
+        let mut i = 1;
+        while i < n { let mut j = i; while j > 0 && f(&s[j - 1]) > f(&s[j]) { s.swap(j - 1, j); j -= 1; } i += 1; }
+    }
+}
+impl<T: Send> SeqSliceMut<T> for [T] {
+    fn as_parallel_slice_mut(&mut self) -> &mut [T] { self }
+}
+
+fn e2e_check<const NP: usize>(shape: [usize; NP], ptypes: [BlobType; NP], mode: IndexType) {
+    let mut c = IndexCollector::new(mode);
+    let dummy = Row { id: BlobId::from(vh::mk_id(0)), pack_idx: 0, loc: BlobLocation { offset: 0, length: 0, uncompressed_length: None } };
+    let mut rows = [[dummy; 2]; NP];
+    let mut sizes = [0u32; NP];
+    let mut i = 0;
+    while i < NP {
+        let p = mk_pack(i as u8 + 1, ptypes[i], shape[i], true);
+        let mut j = 0;
+        while j < shape[i] { rows[i][j] = Row { id: p.blobs[j].id, pack_idx: 0, loc: p.blobs[j].location }; j += 1; }
+        sizes[i] = p.size.unwrap();
+        c.extend(Some(p));
+        i += 1;
+    }
+    let idx = c.into_index();
+    let m = match mode { IndexType::Full => 0u8, IndexType::DataIds => 1, IndexType::OnlyTrees => 2 };
+    let q = any_bid();
+    if kani::any() { e2e_query::<NP>(&idx, &rows, &sizes, shape, ptypes, m, q, BlobType::Tree); } else { e2e_query::<NP>(&idx, &rows, &sizes, shape, ptypes, m, q, BlobType::Data); }
+    std::mem::forget(idx);
+}
+
+fn e2e_query<const NP: usize>(idx: &Index, rows: &[[Row; 2]; NP], sizes: &[u32; NP], shape: [usize; NP], ptypes: [BlobType; NP], m: u8, q: BlobId, tpe: BlobType) {
+    let mut listed = false;
+    let mut total = 0u64;
+    let mut i = 0;
+    while i < NP {
+        let ptype = if shape[i] == 0 { BlobType::Data } else { ptypes[i] };
+        if ptype == tpe {
+            let mut j = 0;
+            while j < shape[i] { if rows[i][j].id == q { listed = true; } j += 1; }
+            total += u64::from(sizes[i]);
+        }
+        i += 1;
+    }
+    let retains_presence = tpe == BlobType::Tree || m != 2;
+    let retains_location = tpe == BlobType::Tree || m == 0;
+    assert!(idx.has(tpe, &q) == (listed && retains_presence));
+    assert!(idx.total_size(tpe) == total);
+    match idx.get_id(tpe, &q) {
+        None => assert!(!(listed && retains_location)),
+        Some(e) => {
+            assert!(listed && retains_location);
+            let mut ok = false;
+            let mut i = 0;
+            while i < NP {
+                let ptype = if shape[i] == 0 { BlobType::Data } else { ptypes[i] };
+                let mut j = 0;
+                while j < shape[i] { if ptype == tpe && rows[i][j].id == q && pid(i as u8 + 1) == e.pack && rows[i][j].loc == e.location { ok = true; } j += 1; }
+                i += 1;
+            }
+            assert!(ok);
+            kani::cover!(true, "lookup returned a listing");
+        }
+    }
+    kani::cover!(listed && retains_presence, "present");
+    kani::cover!(!listed, "absent");
+}
+
+macro_rules! e2e_instance {
+    ($name:ident, $shape:expr, $types:expr, $mode:expr) => {
+        #[kani::proof]
+        #[kani::unwind(5)]
+        #[kani::stub(rayon::slice::ParallelSliceMut::par_sort_unstable_by_key, SeqSliceMut::par_sort_unstable_by_key)]
+        #[kani::stub(rayon::slice::ParallelSliceMut::par_sort_unstable, SeqSliceMut::par_sort_unstable)]
+        pub(crate) fn $name() { e2e_check($shape, $types, $mode); }
+    };
+}
+//@ instance: c17_e2e_full_2 c17_e2e_full_2_1 c17_e2e_ids_2_1 c17_e2e_trees_1_2 c17_e2e_full_2_2
+//@ harness: c17_e2e_full_2 c17_e2e_full_2_1
+//@ prop: C17
+//@ tier: quick
+//@ timeout: 1200
+//@ mem: 12
+//@ unwindset: ^memcmp#0=34
+//@ kernel: IndexCollector::{new,extend,into_index} -> Index::{has,get_id,total_size}; the sort call sites inside into_index
+//@ bound: per instance: concrete pack/blob counts and pack types ((2 data), (2 data, 1 tree)), ids symbolic in a 4-element domain, locations/sizes symbolic; symbolic (type,id) query; loops unwound 5, memcmp 34
+//@ oracle: through the real collector and the real into_index: has <=> listed (for what the mode retains), get_id returns one listing of that (type,id), total_size == sum of listed pack sizes per type
+//@ stub: rayon::slice::ParallelSliceMut::{par_sort_unstable, par_sort_unstable_by_key} -> sequential insertion sort with the same contract (Kani cannot compile rayon); rayon's sort implementation itself is trusted
+//@ assume: packs are homogeneous
+e2e_instance!(c17_e2e_full_2, [2], [BlobType::Data], IndexType::Full);
+e2e_instance!(c17_e2e_full_2_1, [2, 1], [BlobType::Data, BlobType::Tree], IndexType::Full);
+//@ harness: c17_e2e_ids_2_1 c17_e2e_trees_1_2 c17_e2e_full_2_2
+//@ prop: C17
+//@ tier: thorough
+//@ timeout: 3000
+//@ mem: 16
+//@ unwindset: ^memcmp#0=34
+//@ kernel: as c17_e2e_full_2
+//@ bound: as c17_e2e_full_2, shapes (2,1) ids-only, (1,2) trees-only, (2,2) full
+//@ oracle: as c17_e2e_full_2
+//@ stub: rayon parallel sorts -> sequential insertion sort (same contract)
+//@ assume: packs are homogeneous
+e2e_instance!(c17_e2e_ids_2_1, [2, 1], [BlobType::Data, BlobType::Data], IndexType::DataIds);
+e2e_instance!(c17_e2e_trees_1_2, [1, 2], [BlobType::Data, BlobType::Tree], IndexType::OnlyTrees);
+e2e_instance!(c17_e2e_full_2_2, [2, 2], [BlobType::Tree, BlobType::Tree], IndexType::Full);
